@@ -1,0 +1,90 @@
+//go:build verif
+
+package jobqueuecontroller
+
+// Contracts for fvc (see /verif/DESIGN.md). Comment-only file.
+//@ import utilatomic "github.com/furiko-io/furiko/pkg/utils/atomic"
+//@ import activejobstore "github.com/furiko-io/furiko/pkg/execution/stores/activejobstore"
+
+// API effects are observed through the ghost Job write log jwN / jwKind / jwObj / jwOK (/verif/fvc/lib/k8s.spec).
+
+// ---- control.go: the production JobControlInterface ------------------------------------------------------
+
+// A "start write": a status update of a fresh copy of rj whose only change is startTime = now.
+//@ pure isStartWrite(i Int, rj *execution.Job) bool =
+//@     jwKind[i] == 3 && jwObj[i] != nil && jwObj[i] != rj
+//@  && jwObj[i].Name == rj.Name && jwObj[i].Namespace == rj.Namespace && jwObj[i].UID == rj.UID
+//@  && jwObj[i].Spec == rj.Spec && jwObj[i].Status.Phase == rj.Status.Phase
+//@  && jwObj[i].Status.StartTime != nil && ns(jwObj[i].Status.StartTime.Time) == clock
+
+//@ func JobControl.StartJob
+//@   tags C05, C07, C11
+//@   requires c != nil && rj != nil
+//@   modifies jwN, jwKind, jwObj, jwOK, clock
+//@   ensures [C05,C07,C11] exactly-one-start-write: jwN == old(jwN) + 1 && isStartWrite(old(jwN), rj)
+//@   ensures [C05,C20] error-iff-write-failed: (result == nil) == jwOK[old(jwN)]
+//@   ensures [C05] log-append-only: forall i int :: i < old(jwN) ==> jwKind[i] == old(jwKind[i]) && jwObj[i] == old(jwObj[i]) && jwOK[i] == old(jwOK[i])
+//@   ensures [C11] cached-object-untouched: *rj == old(*rj)
+
+// A "reject write": an update of a fresh copy of rj that carries the admission-error annotation.
+//@ pure isRejectWrite(i Int, rj *execution.Job) bool =
+//@     jwKind[i] == 2 && jwObj[i] != nil && jwObj[i] != rj
+//@  && jwObj[i].Name == rj.Name && jwObj[i].Namespace == rj.Namespace && jwObj[i].UID == rj.UID
+//@  && (job.LabelKeyAdmissionErrorMessage in jwObj[i].Annotations)
+
+//@ func JobControl.RejectJob
+//@   tags C06
+//@   requires c != nil && rj != nil
+//@   modifies jwN, jwKind, jwObj, jwOK
+//@   ensures [C06] exactly-one-reject-write: jwN == old(jwN) + 1 && isRejectWrite(old(jwN), rj)
+//@   ensures [C06,C20] error-iff-write-failed: (result == nil) == jwOK[old(jwN)]
+//@   ensures [C06] log-append-only: forall i int :: i < old(jwN) ==> jwKind[i] == old(jwKind[i]) && jwObj[i] == old(jwObj[i]) && jwOK[i] == old(jwOK[i])
+//@   ensures [C06] cached-object-untouched: *rj == old(*rj) && (forall k string :: (k in rj.Annotations) == old(k in rj.Annotations))
+
+// ---- wiring of the production implementations behind the interfaces -------------------------------------------
+
+//@ extern func iface github.com/furiko-io/furiko/pkg/execution/controllers/jobqueuecontroller.JobControlInterface.StartJob
+//@   devirtualize jobqueuecontroller.JobControl
+//@ extern func iface github.com/furiko-io/furiko/pkg/execution/controllers/jobqueuecontroller.JobControlInterface.RejectJob
+//@   devirtualize jobqueuecontroller.JobControl
+
+//@ extern func iface github.com/furiko-io/furiko/pkg/runtime/controllercontext.ActiveJobStore.CountActiveJobsForConfig
+//@   devirtualize activejobstore.Store
+//@ extern func iface github.com/furiko-io/furiko/pkg/runtime/controllercontext.ActiveJobStore.CheckAndAdd
+//@   devirtualize activejobstore.Store
+//@ extern func iface github.com/furiko-io/furiko/pkg/runtime/controllercontext.ActiveJobStore.Delete
+//@   devirtualize activejobstore.Store
+
+//@ extern func iface github.com/furiko-io/furiko/pkg/runtime/controllercontext.Context.Stores
+//@   params recv
+// the registered ActiveJobStore is the production activejobstore.Store (ASSUMED wiring, cmd/execution-controller)
+//@ extern func iface github.com/furiko-io/furiko/pkg/runtime/controllercontext.Stores.ActiveJobStore
+//@   params recv
+//@   ensures result1 == nil ==> typeis(result0, *activejobstore.Store) && activejobstore.stwf(unbox(result0, *activejobstore.Store))
+//@   ensures result1 != nil ==> result0 == nil
+
+// ---- reconciler_perjobconfig.go ----------------------------------------------------------------------------------
+
+//@ pure storeOf(store controllercontext.ActiveJobStore) *activejobstore.Store = unbox(store, *activejobstore.Store)
+//@ pure due(rj *execution.Job) bool = !(rj.Spec.StartPolicy != nil && rj.Spec.StartPolicy.StartAfter != nil
+//@        && !rj.Spec.StartPolicy.StartAfter.Time.IsZero() && ns(rj.Spec.StartPolicy.StartAfter.Time) > clock)
+//@ pure policyOf(rj *execution.Job) execution.ConcurrencyPolicy = rj.Spec.StartPolicy != nil ? rj.Spec.StartPolicy.ConcurrencyPolicy : ""
+
+//@ func PerConfigReconciler.enqueueAfter
+//@   tags C06, C07
+//@   requires w != nil && rjc != nil
+//@   modifies wakeN, wakeKey, wakeAfter
+//@   ensures [C06,C07] arms-wakeup: wakeN == old(wakeN) + 1 && wakeKey[old(wakeN)] == nsname(rjc.Namespace, rjc.Name) && wakeAfter[old(wakeN)] == max(1000000000, duration)
+
+//@ func PerConfigReconciler.startJob
+//@   tags C05, C06, C20
+//@   requires w != nil && rjc != nil && rj != nil && typeis(w.client, *JobControl) && unbox(w.client, *JobControl) != nil
+//@   requires typeis(store, *activejobstore.Store) && activejobstore.stwf(storeOf(store))
+//@   modifies jwN, jwKind, jwObj, jwOK, clock, smHas, smVal, heap(utilatomic.counterNode)
+//@   ensures [C05] keeps-store: activejobstore.stwf(storeOf(store))
+//@   ensures [C05] start-only-after-cas: jwN > old(jwN) ==> old(activejobstore.active(storeOf(store), string(rjc.UID))) == oldCount
+//@   ensures [C05,C07] at-most-one-write-and-it-is-a-start: jwN <= old(jwN) + 1 && (jwN == old(jwN) + 1 ==> isStartWrite(old(jwN), rj))
+//@   ensures [C05,C20] rollback-on-error: result != nil ==> (forall k string :: activejobstore.active(storeOf(store), k) == old(activejobstore.active(storeOf(store), k)))
+//@   ensures [C05] counted-on-success: result == nil ==> jwN == old(jwN) + 1 && jwOK[old(jwN)]
+//@        && (forall k string :: activejobstore.active(storeOf(store), k) == (k == string(rjc.UID) ? oldCount + 1 : old(activejobstore.active(storeOf(store), k))))
+//@   ensures [C05] log-append-only: forall i int :: i < old(jwN) ==> jwKind[i] == old(jwKind[i]) && jwObj[i] == old(jwObj[i]) && jwOK[i] == old(jwOK[i])
